@@ -157,6 +157,8 @@ pub trait DynOwning {
     fn as_addr_mut_stop(&mut self) -> Result<()>;
     fn join(&mut self) -> LocalBoxFuture<'static, Option<String>>;
     fn consume(self: Box<Self>) -> LocalBoxFuture<'static, Result<String>>;
+    /// `consume_sync`: stop, hand the join future out, drop the owner
+    fn consume_sync(self: Box<Self>) -> Result<LocalBoxFuture<'static, Option<String>>>;
     fn to_addr(&self) -> Box<dyn DynAddr>;
     fn detach(self: Box<Self>) -> Box<dyn DynAddr>;
 }
@@ -177,6 +179,10 @@ impl<const K: usize> DynOwning for OwningAddr<Node<K>> {
     }
     fn consume(self: Box<Self>) -> LocalBoxFuture<'static, Result<String>> {
         async move { OwningAddr::consume(*self).await.map(|n| final_digest(&n)) }.boxed_local()
+    }
+    fn consume_sync(self: Box<Self>) -> Result<LocalBoxFuture<'static, Option<String>>> {
+        let f: JoinFuture<Node<K>> = OwningAddr::consume_sync(*self)?;
+        Ok(async move { f.await.map(|n| final_digest(&n)) }.boxed_local())
     }
     fn to_addr(&self) -> Box<dyn DynAddr> {
         Box::new(OwningAddr::to_addr(self))
@@ -299,6 +305,8 @@ pub enum Op {
     /// create a join future and drop it without ever polling it (must have no effect)
     JoinDiscard { h: usize },
     Consume { h: usize },
+    /// `OwningAddr::consume_sync` followed by awaiting the future it returned
+    ConsumeSync { h: usize },
     TryHalt { h: usize },
     Stop { h: usize },
     Restart { h: usize },
@@ -719,6 +727,28 @@ async fn exec_op(c: usize, op: Op) {
                 drop(f);
             }
             put(h, hb);
+        }
+        Op::ConsumeSync { h } => {
+            // observably `consume` whose owner is gone as soon as the stop request is in: the same labels, plus the
+            // `drop` of the owning address right after the submission point
+            let Some(hb) = take(h) else { return };
+            match hb {
+                HandleBox::Owning(_, ow) => {
+                    let o = begin(c, h, "consume", None);
+                    match ow.consume_sync() {
+                        Err(e) => ret(o, format!("err {}", err_kind(&e))),
+                        Ok(f) => {
+                            emit(format!("sync {} {} drop ok", c, h));
+                            let r = f.await;
+                            ret(o, match r {
+                                Some(d) => format!("some {}", d),
+                                None => "err already_stopped".into(),
+                            });
+                        }
+                    }
+                }
+                other => put(h, other),
+            }
         }
         Op::Consume { h } => {
             let Some(hb) = take(h) else { return };
